@@ -31,6 +31,20 @@ theorem layout_pairwise (bs : List (Nat × Nat)) (h : SPool.layout bs) :
     have := layout_bound as h.2 b hb
     right; omega
 
+/-- the size of the region never changes -/
+theorem SPool.run_size (ops : List SPool.Op) (t : SPool) : (t.run ops).2.size = t.size := by
+  induction ops generalizing t with
+  | nil => rfl
+  | cons op ops ih =>
+    simp only [SPool.run]
+    rw [ih]
+    cases op <;> simp only [SPool.step, SPool.malloc, SPool.calloc, SPool.release, SPool.reset, SPool.write]
+    · split <;> rfl
+    · split <;> rfl
+    · split
+      · split <;> rfl
+      · rfl
+
 end Spec
 
 namespace StaticPool
